@@ -12,19 +12,19 @@ import (
 // holds the baton at any time.
 
 type G struct {
-	id       int
-	name     string
-	resume   chan bool
-	wait     func() bool
-	waitWhy  string
-	done     bool
-	started  bool
-	crashed  *goPanic
-	watchdog bool
+	id        int
+	name      string
+	resume    chan bool
+	wait      func() bool
+	waitWhy   string
+	done      bool
+	started   bool
+	crashed   *goPanic
+	watchdog  bool
 	inQuiesce bool
-	killed   bool
-	fn       Value
-	args     []Value
+	killed    bool
+	fn        Value
+	args      []Value
 }
 
 type Sched struct {
@@ -117,7 +117,7 @@ func (p *Path) reportBlocked(g0 *G) {
 	st.Violated++
 	p.reached["engine:no_deadlock"]++
 	p.sol.Check(nil, false)
-	cex := &CounterEx{Harness: p.h.Name, Assert: "engine:no_deadlock", Inputs: p.model(), Params: p.h.Params,
+	cex := &CounterEx{Harness: p.h.Name, Assert: "engine:no_deadlock", Inputs: p.model(), Params: p.h.Params, RandomOrder: p.natives["randperm"] != nil,
 		Decisions: append([]Decision(nil), p.taken...), Note: "harness goroutine blocked forever: " + why, Trace: append([]string(nil), p.trace...), Tag: p.tag}
 	p.resMu.Lock()
 	if len(p.res.CEX) < 200 {
@@ -197,7 +197,7 @@ func (p *Path) recordCrash(g *G, gp goPanic) {
 	p.res.Panics++
 	p.resMu.Unlock()
 	p.sol.Check(nil, false)
-	cex := &CounterEx{Harness: p.h.Name, Assert: id, Inputs: p.model(), Params: p.h.Params,
+	cex := &CounterEx{Harness: p.h.Name, Assert: id, Inputs: p.model(), Params: p.h.Params, RandomOrder: p.natives["randperm"] != nil,
 		Decisions: append([]Decision(nil), p.taken...), Note: fmt.Sprintf("panic escaped goroutine %d (%s): %s", g.id, g.name, gp.msg), Trace: append([]string(nil), p.trace...), Tag: p.tag}
 	p.resMu.Lock()
 	if len(p.res.CEX) < 200 {
